@@ -262,6 +262,30 @@ def run(ctx):
     from rules import shortwrite
     for inst, v in sorted(shortwrite.allwrite_sites(db, rep).items()):
         r3.check(v[0], 'allwrite:' + inst, v[1], v[2], v[3])
-    r3.expect_min(2)
+    # the write operation of every output substdio object of qmail-remote.c (found through the objects' initialisers)
+    ops = set()
+    for gname, g in db.unit('qmail-remote.c').globals.items():
+        if 'substdio' not in g.get('t', ''):
+            continue
+        flat = []
+
+        def walk(v):
+            if isinstance(v, dict):
+                if v.get('k') == 'fn':
+                    flat.append(v['v'][2:])
+                elif v.get('k') == 'list':
+                    for e_ in v['v']:
+                        walk(e_)
+        walk(g.get('init'))
+        for f_ in flat:
+            fo = prog.resolve(f_, 'qmail-remote.c')
+            if fo is not None and fo.blocks and fo.unit == 'qmail-remote.c' and any(c_.callee in ('timeoutwrite', 'write') for c_ in fo.calls()):
+                ops.add(f_)
+    if not ops:
+        raise AnalysisBroken('qmail-remote.c: no output substdio with a write operation defined in the unit')
+    for op in sorted(ops):
+        for inst, v in sorted(shortwrite.writeop_sites(db, rep, prog, 'qmail-remote.c', op).items()):
+            r3.check(v[0], inst, v[1], v[2], v[3])
+    r3.expect_min(3)
     rep.assume('substdio_get(&ssin,&ch,1) yields the message bytes in order; substdio_put(&smtpto,...) sends bytes in order',
                'receiver model: RFC 5321 section 4.5.2 (CRLF line ends, leading dot removed, CRLF.CRLF ends the data)')
